@@ -146,9 +146,14 @@ def probe(make_model):
         except Exception as e:
             res["adj"] = None; res["adj_err"] = repr(e)[:100]
         try:
-            res["gm"] = dense(make_model().get_matrix())
+            Mg = make_model()
+            res["gm"] = dense(Mg.get_matrix())
+            # cached matrix: forward in between, then ask again (must be the same, unaffected by later calls)
+            xg = np.arange(1.0, n + 1.0)
+            Mg.forward(xg); Mg.forward(np.zeros(n))
+            res["gm2"] = dense(Mg.get_matrix())
         except Exception as e:
-            res["gm"] = None; res["gm_err"] = repr(e)[:100]
+            res["gm"] = None; res["gm2"] = None; res["gm_err"] = repr(e)[:100]
         for name, fn, k in (("tfwd", lambda T: (lambda y: T.forward(y)), m), ("tadj", lambda T: (lambda x: T.adjoint(x)), n)):
             try:
                 T = make_model().T
@@ -196,6 +201,10 @@ def oracle_linear(ctx, res, keyf, desc, adjoint_pair=True):
         ctx.fail(keyf("get_matrix_range_dim_1" if (G is None and res["m"] == 1) else "get_matrix"), desc, "get_matrix()[:, j] = forward(e_j), shape (range_dim, domain_dim)",
                  res.get("gm_err") if G is None else {"shape": list(G.shape), "forward shape": list(F.shape)},
                  "matrix representation does not reproduce the forward map column by column")
+        bad.add("get_matrix")
+    elif res.get("gm2") is None or differ(res["gm2"], F):
+        ctx.fail(keyf("get_matrix"), {**desc, "call": "second get_matrix() after forward calls"}, "cached get_matrix() = forward map column by column",
+                 None if res.get("gm2") is None else res["gm2"].tolist(), "cached matrix representation changed after later forward calls")
         bad.add("get_matrix")
     tb = []
     if res["tfwd"] is None or differ(res["tfwd"], Ad):
@@ -310,7 +319,7 @@ def _run(ctx):
         jobs.append((f"geom step:{n}:{s}", h_ref))
 
     # ================================================================ LinearModel under every geometry pair
-    def lin_case(gd, gr, kind, sparse, wrong_adjoint=False, tag="", A_fixed=None):
+    def lin_case(gd, gr, kind, sparse, wrong_adjoint=False, tag="", A_fixed=None, funcs=None, casekind=None):
         nD, nR = gd.fun_dim, gr.fun_dim
         A = nrs.randint(-3, 4, size=(nR, nD)).astype(float) if A_fixed is None else np.asarray(A_fixed, dtype=float)
         if wrong_adjoint:
@@ -334,6 +343,8 @@ def _run(ctx):
             fs_d, fs_r = gd.fun_shape, gr.fun_shape
             fwd = lambda x: (A @ np.asarray(x).ravel()).reshape(fs_r)
             adj = lambda y: (B @ np.asarray(y).ravel()).reshape(fs_d)
+            if funcs is not None:
+                fwd, adj = funcs
             rgeo = Rg if gr.label not in ("Default1D", "Default2D") else (gr.fun_shape[0] if gr.label == "Default1D" else tuple(gr.fun_shape))
             dgeo = D if gd.label not in ("Default1D", "Default2D") else (gd.fun_shape[0] if gd.label == "Default1D" else tuple(gd.fun_shape))
             return LinearModel(fwd, adj, range_geometry=rgeo, domain_geometry=dgeo)
@@ -342,7 +353,7 @@ def _run(ctx):
         keyf = lambda aspect: f"LinearModel:{aspect}:{kind}:{fam}:{gd.label}>{gr.label}{tag}"
 
         def h(out):
-            ctx.case(f"lin-{kind}-{fam}", desc)
+            ctx.case(casekind or f"lin-{kind}-{fam}", desc)
             res = probe(make_model)
             tie_linear(ctx, out, res, f"tie:LinearModel:{kind}:{gd.label}>{gr.label}", desc, exact, keyf, adjoint_pair=not wrong_adjoint)
             bad = oracle_linear(ctx, res, keyf, desc, adjoint_pair=not wrong_adjoint)
@@ -383,6 +394,46 @@ def _run(ctx):
     w_scale = GSpec("Mapped-scale", "expansion", lambda: _MG(Continuous1D(1), map=lambda x: 4.0 * x, imap=lambda x: x / 4.0), squeezes=False)
     lin_case(w_step, w_id2, "mb", "dense", tag="@witness:stepModel", A_fixed=np.eye(2))      # step_adjoint_counterexample, getMatrix_matrixBacked_counterexample
     lin_case(w_id1, w_scale, "mb", "dense", tag="@witness:scaleModel", A_fixed=np.eye(1))    # transpose_counterexample
+
+    # ---- aliasing function pairs: forward/adjoint return their argument or a VIEW of it, on geometries that do
+    # not copy (Continuous1D / default / Discrete: par2fun returns its argument; Image2D: reshape/ravel views).
+    # get_matrix probes with one unit vector that it resets in place, so a column that still aliases it is wrong.
+    from cuqi.geometry import Image2D as _I2, Discrete as _Di, _DefaultGeometry1D as _D1
+    def g1(label, n):
+        mk = {"Continuous1D": lambda: Continuous1D(n), "Discrete": lambda: _Di(n), "Default1D": lambda: _D1(n)}[label]
+        return GSpec(label, "plain", mk, f"id:{n}")
+    def gI(r, c, order="C"):
+        return GSpec("Image2D-" + order, "plain", lambda: _I2((r, c), order=order), f"img{order}:{r}:{c}")
+    def zpad(n, sl):
+        def adj(y):
+            z = np.zeros(n); z[sl] = y; return z
+        return adj
+    def zpad2(shape, sl):
+        def adj(Y):
+            Z = np.zeros(shape); Z[sl] = Y; return Z
+        return adj
+    alias_cases = []
+    for n in ((3, 4, 6) if not thorough else (2, 3, 4, 5, 6, 8)):
+        I = np.eye(n)
+        for lab in ("Continuous1D", "Discrete", "Default1D"):
+            alias_cases.append(("identity", g1(lab, n), g1(lab, n), I, (lambda x: x, lambda y: y)))
+            alias_cases.append(("flip", g1(lab, n), g1(lab, n), I[::-1], (lambda x: x[::-1], lambda y: y[::-1])))
+        if n >= 3:
+            m = len(range(1, n, 2))
+            alias_cases.append(("restriction", g1("Continuous1D", n), g1("Continuous1D", m), I[1::2], (lambda x: x[1::2], zpad(n, slice(1, None, 2)))))
+            alias_cases.append(("restriction", g1("Default1D", n), g1("Discrete", m), I[1::2], (lambda x: x[1::2], zpad(n, slice(1, None, 2)))))
+            alias_cases.append(("head", g1("Continuous1D", n), g1("Default1D", n - 1), I[: n - 1], (lambda x: x[:-1], zpad(n, slice(0, n - 1)))))
+    for (r, c) in (((4, 2), (3, 3)) if not thorough else ((4, 2), (3, 3), (4, 3), (5, 2))):
+        N = r * c
+        idx = np.arange(N).reshape(r, c)
+        alias_cases.append(("image-identity", gI(r, c), gI(r, c), np.eye(N), (lambda X: X, lambda Y: Y)))
+        alias_cases.append(("image-identity", gI(r, c, "F"), gI(r, c, "F"), np.eye(N), (lambda X: X, lambda Y: Y)))
+        alias_cases.append(("image-crop", gI(r, c), gI(2, c), np.eye(N)[idx[1:3, :].ravel()], (lambda X: X[1:3, :], zpad2((r, c), (slice(1, 3), slice(None))))))
+        alias_cases.append(("image-flipud", gI(r, c), gI(r, c), np.eye(N)[idx[::-1, :].ravel()], (lambda X: X[::-1, :], lambda Y: Y[::-1, :])))
+        alias_cases.append(("image-transpose", gI(r, c), gI(c, r), np.eye(N)[idx.T.ravel()], (lambda X: X.T, lambda Y: Y.T)))
+        alias_cases.append(("image-ravel", gI(r, c), g1("Continuous1D", N), np.eye(N), (lambda X: X.ravel(), lambda y, r=r, c=c: y.reshape(r, c))))
+    for (name, gd_, gr_, A_, fa) in alias_cases:
+        lin_case(gd_, gr_, "fn", "dense", tag="@alias:" + name, A_fixed=A_, funcs=fa, casekind="lin-fn-alias-" + name)
 
     # malformed: matrix whose column count does not fit the domain geometry -> numpy raises in forward
     from cuqi.geometry import Continuous1D
